@@ -179,6 +179,19 @@ func (fr *Frame) callFn(st *State, fn *ssa.Function, args []Value, deferOf int) 
 		return m(fr, st, args, fn.Signature)
 	}
 	ctr := v.contractFor(fn)
+	// an assumed contract that is scoped to the calling package (extlocal) comes first
+	{
+		top := fr
+		for top.parent != nil {
+			top = top.parent
+		}
+		for _, f := range []*Frame{fr, top} {
+			if c := v.cs.ByKey["ext::"+full+"@"+fnPkgPath(f.fn)]; c != nil {
+				ctr = c
+				break
+			}
+		}
+	}
 	if ctr == nil && isPureName(full) {
 		// logging / formatting / metrics: no effect on heap or ghost state (assumed), body not entered
 		return fr.unknownCall(st, full, fn.Signature, args, false)
